@@ -15,7 +15,7 @@ RULE = ("Linear (no extrapolation) at Q, exact: n=2..40, all axis kinds, 0..3 tr
         "judged against the exact rational interpolant of the float inputs with the proved bound (13u+12u^2)*max|y|. "
         "non-trivial = at least one query strictly between two knots; distinct = distinct case line")
 PARTIAL = ["rounding magnitude is proved under the standard model of fp arithmetic only (C01_rounding); overflow/underflow excluded; "
-           "f32 is not run (same generic code, u = 2^-24)"]
+           "f32 is run through the protocol (model at IEEE binary32) and held to the same bound with u = 2^-24"]
 ASSUMPTIONS = ["standard model of floating-point arithmetic for the rounding bound", "axis length < 2^64"]
 U = Fr(1, 2 ** 53)
 BOUND = 13 * U + 12 * U * U
